@@ -3,6 +3,8 @@ CONSTANTS
   Conn = {c1, c2}
   Req = {r1, r2}
   Ids = {i1, i2}
+  MaxSteps = 1
+  SendKinds = {"full", "head", "body"}
   Mode = "detached"
 INVARIANT DetachedNeverCancelled
 INVARIANT CancelOnlyWhenGone
